@@ -3,6 +3,9 @@
 // observations on the real healthcheck.NewPassiveFilter + healthcheck.Passive
 // with a manual clock, every observation compared with a reference model that
 // is the literal predicate of the statement over all recorded failure times.
+// Two families of searches: a fixed host list (phase 1), and a real DNS-backed
+// hostlist.List built by hostlist.New (phase 2, dnslist.go) whose DNS record,
+// refresh outcomes and TTL expiry are part of the timeline.
 package main
 
 import (
@@ -14,6 +17,7 @@ import (
 
 	"github.com/andres-erbsen/clock"
 	"github.com/uber/kraken/lib/healthcheck"
+	"github.com/uber/kraken/lib/hostlist"
 	"github.com/uber/kraken/utils/stringset"
 
 	"verif/bfs"
@@ -73,12 +77,16 @@ func (e *eventSet) record(ev, id string) {
 type sys struct {
 	name     string
 	fails    int
-	list     []string // the passively checked host list
+	list     []string // the passively checked host list (phase 2: the hosts the list currently has, see dnslist.go)
 	failable []string // hosts the environment reports failures for
 	clk      *manualClock
 	pf       healthcheck.PassiveFilter
 	p        *healthcheck.Passive
 	run      *evid.Run
+
+	// phase 2 only (nil in phase 1): the real DNS-backed list and its environment
+	hosts hostlist.List
+	dns   *dnsEnv
 
 	// model: current time and every failure ever recorded, per host
 	now time.Duration
@@ -101,7 +109,11 @@ func newSys(run *evid.Run, fails int, list, failable []string) *sys {
 	}
 }
 
-func (s *sys) Close() {}
+func (s *sys) Close() {
+	if s.dns != nil {
+		s.dns.close()
+	}
+}
 
 var advances = map[string]time.Duration{
 	"adv T/2":   T / 2,
@@ -114,7 +126,11 @@ func (s *sys) Ops() []string {
 	for _, h := range s.failable {
 		ops = append(ops, "fail "+h)
 	}
-	return append(ops, "run", "resolve", "adv T/2", "adv T", "adv T+1ns")
+	ops = append(ops, "run", "resolve", "adv T/2", "adv T", "adv T+1ns")
+	if s.dns != nil {
+		ops = append(ops, s.dns.ops()...)
+	}
+	return ops
 }
 
 // window is the number of recorded failures of host h that fall within
@@ -167,7 +183,7 @@ func (s *sys) Apply(op string) error {
 	switch {
 	case strings.HasPrefix(op, "fail "):
 		h := strings.TrimPrefix(op, "fail ")
-		s.p.Failed(h)
+		s.p.Failed(s.addr(h))
 		s.rec[h] = append(s.rec[h], s.now)
 	case strings.HasPrefix(op, "adv "):
 		d, ok := advances[op]
@@ -176,15 +192,33 @@ func (s *sys) Apply(op string) error {
 		}
 		s.clk.add(d)
 		s.now += d
+	case strings.HasPrefix(op, "dns ") && s.dns != nil:
+		if err := s.dns.set(strings.TrimPrefix(op, "dns ")); err != nil {
+			return err
+		}
 	case op == "run":
-		got := s.pf.Run(stringset.New(s.list...))
-		if err := s.compare("PassiveFilter.Run", op, got, id); err != nil {
+		// phase 1: the filter is run on the list; phase 2: on every host of
+		// the universe (members or not), the rule is per host
+		in := s.list
+		if s.dns != nil {
+			in = s.failable
+		}
+		got := s.labels(s.pf.Run(s.addrs(in)))
+		if err := s.compare("PassiveFilter.Run", op, in, got, id); err != nil {
 			return err
 		}
 	case op == "resolve":
-		got := s.p.Resolve()
+		got := s.labels(s.p.Resolve())
+		if s.dns != nil {
+			// the list's hosts from here on: the latest successful non-empty
+			// answer it has taken, including a refresh made by this Resolve
+			s.absorbLookups(true, id)
+		}
 		want := s.want()
 		if len(s.list) > 0 && len(got) == 0 {
+			if s.dns != nil {
+				return bfs.Failf("Passive.Resolve returned an empty set while the DNS-backed host list has hosts ("+s.dns.lastKind()+")", "%s: the list has hosts %v (latest successful answer), DNS record now %q; model healthy set %v; filter state %s; list state %s", s.name, s.list, s.dns.state, sorted(want), healthcheck.VerifPassiveDump(s.pf), hostlist.VerifListDump(s.hosts))
+			}
 			return bfs.Failf("Passive.Resolve returned an empty set for a non-empty host list", "%s: model healthy set %v; filter state %s", s.name, sorted(want), healthcheck.VerifPassiveDump(s.pf))
 		}
 		if len(want) == 0 {
@@ -192,12 +226,23 @@ func (s *sys) Apply(op string) error {
 			// non-empty answer (the implementation answers with all hosts)
 			if len(s.list) > 0 {
 				events.record("resolve_all_filtered_fallback", id)
+				if s.dns != nil && s.dns.lastFailed() {
+					events.record("resolve_all_filtered_fallback_after_failed_refresh", id)
+				}
 			}
-		} else if err := s.compare("Passive.Resolve", op, got, id); err != nil {
+		} else if err := s.compare("Passive.Resolve", op, s.list, got, id); err != nil {
 			return err
 		}
 	default:
 		return fmt.Errorf("unknown op %q", op)
+	}
+	if s.dns != nil {
+		// a lookup outside Resolve (there is none in the unchanged code) is taken the same way
+		s.absorbLookups(false, id)
+		if s.nontrivial() || s.dns.refreshes > 0 {
+			s.run.Distinct(s.name + "|" + s.modelKey() + "|" + s.dnsKey())
+		}
+		return nil
 	}
 	if s.nontrivial() {
 		s.run.Distinct(s.name + "|" + s.modelKey())
@@ -206,9 +251,9 @@ func (s *sys) Apply(op string) error {
 }
 
 // compare checks an observed healthy set against the statement, host by host.
-func (s *sys) compare(where, op string, got stringset.Set, id string) error {
+func (s *sys) compare(where, op string, list []string, got stringset.Set, id string) error {
 	inList := map[string]bool{}
-	for _, h := range s.list {
+	for _, h := range list {
 		inList[h] = true
 	}
 	for a := range got {
@@ -216,7 +261,7 @@ func (s *sys) compare(where, op string, got stringset.Set, id string) error {
 			return bfs.Failf(where+" returned a host that is not in the list", "%s: got %v", s.name, sorted(got))
 		}
 	}
-	for _, h := range s.list {
+	for _, h := range list {
 		f := s.filtered(h)
 		if f {
 			events.record("observed_filtered", id+"|"+h)
@@ -300,7 +345,11 @@ func (s *sys) modelKey() string {
 // Key = model state + the implementation's internal state (unhealthy marks and
 // retained failures, as ages).
 func (s *sys) Key() string {
-	return s.modelKey() + "#" + healthcheck.VerifPassiveDump(s.pf)
+	k := s.modelKey() + "#" + healthcheck.VerifPassiveDump(s.pf)
+	if s.dns != nil {
+		k += "#" + s.dnsKey() + "#" + hostlist.VerifListDump(s.hosts)
+	}
+	return k
 }
 
 // ---------------------------------------------------------------- main
@@ -337,6 +386,37 @@ func main() {
 			name := fmt.Sprintf("list=%s Fails=%d depth=%d", strings.Join(c.list, ""), fails, c.depth)
 			res := rep.BFS(run, name, bfs.Config{MaxDepth: c.depth, Deadline: deadline, New: func() (bfs.System, error) {
 				return newSys(run, fails, c.list, c.failable), nil
+			}})
+			fmt.Printf("  %s: states=%d transitions=%d reached_depth=%d fixpoint=%v completed=%v\n", name, res.States, res.Transitions, res.MaxDepth, res.Fixpoint, res.Completed)
+		}
+	}
+	// phase 2: the list is a real DNS-backed hostlist.List (dnslist.go)
+	type dcfg struct {
+		universe []string
+		init     string
+		answers  []string
+		ttl      time.Duration
+		fails    []int
+		depth    int
+	}
+	xy := []string{"x", "y"}
+	dcfgs := []dcfg{
+		{xy, "xy", []string{"xy", "x", "y", "err", "empty"}, 7 * time.Second, []int{1, 2}, 7},
+		{xy, "x", []string{"x", "xy", "err", "empty"}, 12 * time.Second, []int{2}, 7},
+	}
+	if run.Thorough() {
+		dcfgs = []dcfg{
+			{xy, "xy", []string{"xy", "x", "y", "err", "empty"}, 7 * time.Second, []int{1, 2, 3}, 7},
+			{xy, "x", []string{"x", "xy", "y", "err", "empty"}, 12 * time.Second, []int{1, 2, 3}, 7},
+			{[]string{"x", "y", "z"}, "xy", []string{"xy", "yz", "z", "err", "empty"}, 7 * time.Second, []int{1, 2}, 6},
+		}
+	}
+	for _, c := range dcfgs {
+		for _, fails := range c.fails {
+			c, fails := c, fails
+			name := fmt.Sprintf("dns-list universe=%s init=%s answers=%s TTL=%v Fails=%d depth=%d", strings.Join(c.universe, ""), c.init, strings.Join(c.answers, "|"), c.ttl, fails, c.depth)
+			res := rep.BFS(run, name, bfs.Config{MaxDepth: c.depth, Deadline: deadline, New: func() (bfs.System, error) {
+				return newDNSSys(run, fails, c.universe, c.init, c.answers, c.ttl)
 			}})
 			fmt.Printf("  %s: states=%d transitions=%d reached_depth=%d fixpoint=%v completed=%v\n", name, res.States, res.Transitions, res.MaxDepth, res.Fixpoint, res.Completed)
 		}
